@@ -104,6 +104,7 @@ def _ext_poly(Vn, dim, tier="quick"):
         t.prove_paths("a_vertex_below_pt_gives_True", paths,
                       lambda p: z3.Implies(z3.Or(*[z3.And(*[V.R(rows[a][c]) <= V.R(PT[c]) for c in range(dim)]) for a in range(Vn)]), V.Bz(p.value)) if p.kind == "return" else False)
         t.frame_unchanged("frame:inputs-not-written", paths, ["pt", "poly"])
+        t.agree(paths, k=4)
         t.implicit()
     return _t
 
